@@ -734,8 +734,17 @@ func reifyPrimitive(
 ) (reflect.Value, Error) {
 	// zero initialize value if val==nil
 	if isNil(val) {
-		v := pointerize(t, baseType, reflect.Zero(baseType))
-		return tryInitDefaults(v), nil
+		v := tryInitDefaults(pointerize(t, baseType, reflect.Zero(baseType)))
+		// what InitDefaults sets must satisfy the validators like every other value
+		if val != nil && hasInitDefaults(baseType) {
+			if err := runValidators(chaseValuePointers(v).Interface(), opts.validators); err != nil {
+				return reflect.Value{}, raiseValidation(val.Context(), val.meta(), "", err)
+			}
+			if err := tryValidate(v); err != nil {
+				return reflect.Value{}, raiseValidation(val.Context(), val.meta(), "", err)
+			}
+		}
+		return v, nil
 	}
 
 	var v reflect.Value
